@@ -567,6 +567,36 @@ def run_case(case):
                             "(alpha, input) after an intervening call with other arguments "
                             "(max diff %.3g)" % float(np.max(np.abs(x3 - x))), wit,
                             mech="history:" + cls)
+    # the caller re-assigns a public parameter of the live prox object (a new weight, radius or
+    # bound for the next outer iteration) and calls again: the contract certifies the result
+    # against the object's attributes as they are now - nothing derived from the old values
+    # may have been kept
+    if case["pseed"] % 4 == 2 and isinstance(x, np.ndarray) and y.dtype.kind != "i":
+        changed_ = []
+        for attr in ("lamda", "epsilon", "upper", "lower"):
+            v_ = getattr(P, attr, None)
+            if isinstance(v_, (int, float, np.floating)) or (
+                    isinstance(v_, np.ndarray) and v_.dtype.kind == "f"):
+                new_ = v_ * 0.5 if attr != "lower" else v_ - 0.25 * abs(v_)
+                try:
+                    setattr(P, attr, new_)
+                    changed_.append(attr)
+                except Exception:
+                    pass
+        if changed_:
+            try:
+                P(alpha, y0)
+                checks += 1
+            except Exception as e:
+                if not prox_mon.in_chain(e, "_vf_unresolvable"):
+                    inn = e
+                    while inn.__cause__ is not None:
+                        inn = inn.__cause__
+                    return violated(sig, "call after re-assigning %s on the live prox object "
+                                    "raised %s: %s" % (changed_, type(inn).__name__,
+                                                       str(inn)[:150]), wit,
+                                    mech="reassign-raised:" + cls)
+            sig += "|reassigned"
     # the same array object as input and as a parameter of the prox (its bias / centre / bound):
     # certified by the contract like every call; the parameter must come back unchanged
     for attr in ("y", "bias", "lower", "upper"):
